@@ -72,6 +72,25 @@ qs.append("NOT " * 40 + "a")
 qs.append("a:(" + " OR ".join(str(i) for i in range(60)) + ")")
 qs.append("x" * 300 + ":1")
 qs.append("a:" + "é" * 30)
+# JSON documents for the decoder (prefixed JSON:)
+docs = ['""', 'null', '"a"', '5', '5.0', '1.5', 'true', '"a*"', '"/re/"', '"//"', '[]', '{}', '[1,2]', '{"left":"a","operator":"EQUALS","right":"b"}',
+ '{"left":"a","operator":"EQUALS","right":5}', '{"left":"a","operator":"EQUALS","right":5.5}', '{"left":"a","operator":"LIKE","right":"b*"}',
+ '{"left":"a","operator":"LIKE","right":"*"}', '{"left":"a","operator":"LIKE","right":"/b/"}', '{"left":"a","operator":"LIKE","right":"b"}',
+ '{"left":"a","operator":"RANGE","right":{"min":1,"max":5,"inclusive":true}}', '{"left":"a","operator":"RANGE","right":{"min":"*","max":5,"inclusive":false}}',
+ '{"left":"a","operator":"RANGE","right":{"min":1.5,"max":"*","inclusive":true}}', '{"left":"a","operator":"RANGE","right":{"min":"b","max":"c","inclusive":true}}',
+ '{"left":"a","operator":"RANGE","right":{"min":{"left":"b","operator":"EQUALS","right":"c"},"max":5,"inclusive":true}}', '{"left":"a","operator":"RANGE"}',
+ '{"left":"a","operator":"RANGE","right":"x"}', '{"left":"a","operator":"IN","right":["b","c"]}', '{"left":"a","operator":"IN","right":{"left":["b","c"],"operator":"LIST"}}',
+ '{"left":["b","c"],"operator":"LIST"}', '{"left":["b"],"operator":"LIST"}', '{"left":[],"operator":"LIST"}', '{"left":"a","operator":"NOT"}', '{"left":{"left":"a","operator":"EQUALS","right":"b"},"operator":"NOT"}',
+ '{"left":null,"operator":"NOT"}', '{"left":"a","operator":"AND","right":null}', '{"left":"a","operator":"AND","right":"b"}', '{"left":{"left":"a","operator":"EQUALS","right":1},"operator":"OR","right":{"left":"b","operator":"EQUALS","right":2}}',
+ '{"left":"a","operator":"MUST"}', '{"left":"a","operator":"MUST_NOT"}', '{"left":"a","operator":"FUZZY"}', '{"left":"a","operator":"FUZZY","distance":0}', '{"left":"a","operator":"FUZZY","distance":3}',
+ '{"left":"a","operator":"BOOST"}', '{"left":"a","operator":"BOOST","power":2.5}', '{"left":"a","operator":"BOOST","power":0}', '{"left":"a","operator":"BOGUS","right":"b"}', '{"left":"a","operator":"","right":"b"}',
+ '{"left":"a","operator":"GREATER","right":5}', '{"left":"a","operator":"GREATER_EQ","right":5}', '{"left":"a","operator":"LESS","right":"x"}', '{"left":"a","operator":"LESS_EQ","right":1.5}',
+ '{"left":"a","operator":"GREATER"}', '{"left":5,"operator":"EQUALS","right":"b"}', '{"left":"a b","operator":"EQUALS","right":"b"}', '{"left":"a\"b","operator":"EQUALS","right":"b"}', '{"left":"","operator":"EQUALS","right":"b"}',
+ '{"left":"a","operator":"EQUALS","right":""}', '{"left":"a","operator":"EQUALS","right":"é"}', '{"left":"a","operator":"EQUALS","right":"it\u0027s"}', '{"left":"a","operator":"EQUALS","right":9007199254740993}',
+ '{"left":"a","operator":"EQUALS","right":1e400}', '{"left":"a","operator":"EQUALS","right":true}', '{"left":"a","operator":"EQUALS","right":[1]}', '{"left":"a","operator":"WILD"}', '{"left":"a","operator":"REGEXP"}', '{"left":"a","operator":"LITERAL"}',
+ '{"left":{"left":"a","operator":"LIKE","right":"b?"},"operator":"MUST"}', '{"operator":"EQUALS"}', '{"left":"a"}', '{"right":"a","operator":"NOT"}', '[', '{', '{"left":', '"\ud800"', '{"left":"a","operator":"EQUALS","right":"b","extra":1}']
+for d in docs:
+    qs.append("JSON:" + d)
 with open(out, "w") as f:
     for q in qs:
         f.write(json.dumps(q) + "\n")
